@@ -117,6 +117,12 @@ fn request_pool_key(data: &[u8]) -> Option<PoolKey> {
     if key.left() == key.right() {
         return None;
     }
+    // `NewCustom` stands for "the token this transaction creates" and serialises to the empty string: empty data
+    // would otherwise name one pool shared by every transaction's own new token, whose left side holds as many
+    // different denominations as it has depositors and can be drained by swapping in a freshly created token
+    if key.left() == Denom::NewCustom || key.right() == Denom::NewCustom {
+        return None;
+    }
     (PoolKey::new(key.left(), key.right()) == key).then_some(key)
 }
 
